@@ -122,6 +122,12 @@ pub fn cases(tier: Tier) -> CaseSet {
     for (d, spec) in crate::c06::scale_tag_family(5000) {
         models.push((d, spec));
     }
+    for (d, spec, _) in crate::c01::long_vector_family(Tier::Quick) {
+        models.push((d, spec));
+    }
+    for (d, spec) in crate::c01::many_entries_family(Tier::Quick) {
+        models.push((d, spec));
+    }
     let texts = gen::strings(&['a', 'b', 'あ', '𠀋'], 1, 4);
     CaseSet { models, texts }
 }
